@@ -501,10 +501,23 @@ def check_python_version(program: str) -> None:
 
 def count_stats(messages: list[str]) -> tuple[int, int, int]:
     """Count total number of errors, notes and error_files in message list."""
-    errors = [e for e in messages if ": error:" in e]
+    errors = [e for e in messages if _has_severity(e, ": error:", ": note:")]
     error_files = {e.split(":")[0] for e in errors}
-    notes = [e for e in messages if ": note:" in e]
+    notes = [e for e in messages if _has_severity(e, ": note:", ": error:")]
     return len(errors), len(notes), len(error_files)
+
+
+def _has_severity(message: str, marker: str, other_marker: str) -> bool:
+    """Is marker the severity field of a formatted message?
+
+    The message text may itself contain either marker (e.g. in a quoted literal type),
+    so only the first one in the line counts.
+    """
+    pos = message.find(marker)
+    if pos < 0:
+        return False
+    other_pos = message.find(other_marker)
+    return other_pos < 0 or pos < other_pos
 
 
 def split_words(msg: str) -> list[str]:
